@@ -626,17 +626,23 @@ func Check(ctx *Ctx) *Report {
 				}
 				rs[j] = r
 			}
-			if Hash(rs[0].Outcome) != Hash(rs[1].Outcome) {
-				results[i] = conf2{g: g, why: "fresh-process observations differ between two replays (nondeterminism not owned)"}
-				return
-			}
-			for _, v := range rs[0].Violations {
-				if v.ClassKey() == g.Violation.ClassKey() {
-					results[i] = conf2{g: g, res: rs[0], ok: true}
-					return
+			// the violation class must reproduce in BOTH fresh-process replays; the observations themselves may
+			// differ where the implementation depends on map iteration order (that nondeterminism is C08's
+			// subject and is owned only in the C08 binary)
+			hits := 0
+			for j := 0; j < 2; j++ {
+				for _, v := range rs[j].Violations {
+					if v.ClassKey() == g.Violation.ClassKey() {
+						hits++
+						break
+					}
 				}
 			}
-			results[i] = conf2{g: g, why: "violation class did not reproduce in a fresh process"}
+			if hits == 2 {
+				results[i] = conf2{g: g, res: rs[0], ok: true}
+				return
+			}
+			results[i] = conf2{g: g, why: fmt.Sprintf("violation class reproduced in %d of 2 fresh-process replays", hits)}
 		}(i, groups[k])
 	}
 	kwg.Wait()
